@@ -45,7 +45,7 @@ TRANSLATORS = [("pmh-formulas", translate), estlib.translator("EstPmh")]
 
 
 def correspond(run):
-    n = 300 if run.tier == "quick" else 3000
+    n = 300 if run.depth == "quick" else 3000
     cases, codes = pmhlib.correspond_pmh(run, n, extra_args=[])
     if cases is None:
         return
